@@ -211,10 +211,12 @@ class MultipartDecoder:
 
         elif self.state == State.DATA_START:
             data, del_index, more_data = self._parse_data(self.buffer, start=True)
-            del self.buffer[:del_index]
-            event = Data(data=data, more_data=more_data)
-            if more_data:
-                self.state = State.DATA
+            # Nothing is consumed while it is undecided whether the part has a body.
+            if del_index > 0:
+                del self.buffer[:del_index]
+                event = Data(data=data, more_data=more_data)
+                if more_data:
+                    self.state = State.DATA
 
         elif self.state == State.DATA:
             data, del_index, more_data = self._parse_data(self.buffer, start=False)
@@ -257,16 +259,13 @@ class MultipartDecoder:
 
         if self.buffer.find(boundary) == -1:
             # No complete boundary in the buffer, but there may be
-            # a partial boundary at the end. As the boundary
-            # starts with either a nl or cr find the earliest and
-            # return up to that as data.
-            data_end = del_index = self.last_newline(data[data_start:]) + data_start
-            # If amount of data after last newline is far from
-            # possible length of partial boundary, we should
-            # assume that there is no partial boundary in the buffer
-            # and return all pending data.
-            if (len(data) - data_end) > len(b"\n" + boundary):
-                data_end = del_index = len(data)
+            # a partial boundary at the end. A line break followed by
+            # a partial boundary must start within the last
+            # len(b"\r\n" + boundary) - 1 bytes, return up to the
+            # first line break in that window as data.
+            tail = max(data_start, len(data) - len(b"\r\n" + boundary) + 1)
+            match = LINE_BREAK_RE.search(data, tail)
+            data_end = del_index = len(data) if match is None else match.start()
             more_data = True
         else:
             match = self.boundary_re.search(data)
@@ -280,6 +279,16 @@ class MultipartDecoder:
             else:
                 data_end = del_index = self.last_newline(data[data_start:]) + data_start
             more_data = match is None
+
+        if (
+            start
+            and more_data
+            and boundary.startswith(data[data_start : data_start + len(boundary)])
+        ):
+            # The line break after the headers is also the start of the
+            # boundary of a part without a body. Wait for more data while
+            # what follows it may still turn out to be that boundary.
+            return b"", 0, True
 
         return bytes(data[data_start:data_end]), del_index, more_data
 
